@@ -100,6 +100,16 @@ pub fn c12(ctx: &Ctx) -> PropResult {
         ("ok", "IMPORT \"SQRT\" FROM MOD \"nothing.ap\"".into()),
         ("ok", "IMPORT MOD \"STYLE\"\nSTYLE(\"red\")\nDISPLAY(\"x\")\nCLEAR_STYLE()\n".into()),
         ("ok", "IMPORT MOD \"IO\"\nDISPLAYF(\"{}-{}\", [1, \"a\"])\n".into()),
+        // byte-level layout: every mode must hand the lexer the same bytes
+        ("bytes", "DISPLAY(\"a\")\r\nDISPLAY(\"b\")\r\n".into()),
+        ("bytes", "x <- \"a\r\nb\"\r\nDISPLAY(x)\r\nDISPLAY(LENGTH(x))\r\n".into()),
+        ("bytes", "x <- 1 + \\\r\n2\r\nDISPLAY(x)\r\n".into()),
+        ("bytes", "x <- 1 + \\\n2\nDISPLAY(x)\n".into()),
+        ("bytes", "DISPLAY(\"cr\rin\")\rDISPLAY(2)\r".into()),
+        ("bytes", "\u{feff}DISPLAY(1)\n".into()),
+        ("bytes", "DISPLAY(\"tab\there\")\t\n\tDISPLAY(\"no newline at end\")".into()),
+        ("bytes", "DISPLAY(\"x\") // comment without newline".into()),
+        ("bytes", "DISPLAY(\"nul\u{0}byte\")\n".into()),
         ("lex", "DISPLAY(\"before\")\nx = 1\n".into()),
         ("lex", "x <- \"unterminated\n".into()),
         ("lex", "x <- 1 # 2\n".into()),
@@ -141,7 +151,8 @@ pub fn c12(ctx: &Ctx) -> PropResult {
                         if mode == "stdin" && *class == "input" {
                             continue; // the program itself is read from standard input
                         }
-                        if mode == "eval" && (src.starts_with('-') || src.is_empty()) {
+                        // a NUL byte cannot be passed in a process argument (operating-system limit)
+                        if mode == "eval" && (src.starts_with('-') || src.is_empty() || src.contains('\0')) {
                             continue;
                         }
                         cases.push(CliCase { src: src.clone(), class, mode, debug, check, stdin: stdin.to_string() });
@@ -435,7 +446,10 @@ pub fn c13(ctx: &Ctx) -> PropResult {
     let mut trees: Vec<(String, Vec<(String, String)>, String)> = vec![];
     for i in 0..n {
         let sub = ["", "lib/", "a/b/"][rng.below(3)];
-        let kind = rng.below(12);
+        let mut kind = rng.below(12);
+        if kind >= 9 {
+            kind = 3; // nested imports: a quarter of the trees
+        }
         let mut module = String::from("DISPLAY(\"module top-level\")\nsecret <- 7\n");
         module.push_str("EXPORT PROCEDURE pub_one(x) {\n DISPLAY(\"in pub_one\")\n RETURN x + 1\n}\n");
         module.push_str("EXPORT PROCEDURE pub_two(x) {\n RETURN pub_one(x) * 2\n}\n");
@@ -449,7 +463,10 @@ pub fn c13(ctx: &Ctx) -> PropResult {
             _ => {}
         }
         let inner = "DISPLAY(\"inner top-level\")\nEXPORT PROCEDURE inner_fn() {\n RETURN \"inner\"\n}\n".to_string();
-        let import = match rng.below(5) {
+        let import = match if kind == 3 { rng.below(7) } else { rng.below(5) } {
+            // a module does not re-export what it imported itself
+            5 => format!("IMPORT \"inner_fn\" FROM MOD \"{sub}m{i}.ap\"\n"),
+            6 => format!("IMPORT [\"pub_one\", \"inner_fn\"] FROM MOD \"{sub}m{i}.ap\"\n"),
             0 => format!("IMPORT \"pub_one\" FROM MOD \"{sub}m{i}.ap\"\n"),
             1 => format!("IMPORT [\"pub_one\", \"pub_two\"] FROM MOD \"{sub}m{i}.ap\"\n"),
             2 => format!("IMPORT \"private_helper\" FROM MOD \"{sub}m{i}.ap\"\n"),
@@ -465,7 +482,8 @@ pub fn c13(ctx: &Ctx) -> PropResult {
             "IMPORT MOD \"MATH\"\nDISPLAY(FLOOR(pub_one(1.5)))\n",
         ];
         let again = if rng.chance(1, 4) { import.clone() } else { String::new() };
-        let main = format!("mine <- 10\nDISPLAY(\"main start\")\n{import}{again}DISPLAY(\"after import\")\nDISPLAY(mine)\n{}{}", probes[rng.below(probes.len())], probes[rng.below(probes.len())]);
+        let first_probe = if kind == 3 && rng.chance(1, 2) { probes[5] } else { probes[rng.below(probes.len())] };
+        let main = format!("mine <- 10\nDISPLAY(\"main start\")\n{import}{again}DISPLAY(\"after import\")\nDISPLAY(mine)\n{}{}", first_probe, probes[rng.below(probes.len())]);
         let mut files = vec![(format!("{sub}m{i}.ap"), module)];
         if kind == 3 {
             files.push((format!("{sub}inner.ap"), inner));
@@ -742,6 +760,18 @@ pub fn c18(ctx: &Ctx) -> PropResult {
         let args: Vec<String> = (0..*arity).map(|i| if name == "SUBSTRING" && i > 0 { "1".to_string() } else { arg(i).to_string() }).collect();
         let src = format!("{all_imports}mp <- MAP()\nrb <- ROBOT_MAP(\".\\n.n.\\n.\")\nDISPLAY(\"A\")\nr <- {name}({})\nDISPLAY(\"B\")\n", args.join(", "));
         programs.push((format!("{m}.{name}"), src));
+        // the rarely taken branches: every exemplar value at every argument position (the others plausible)
+        for pos in 0..*arity {
+            for (_, e) in crate::gen::EXEMPLARS {
+                if name == "RANDOM" {
+                    continue; // not reproducible in the model; its output path is the plain call above
+                }
+                let mut a2 = args.clone();
+                a2[pos] = e.to_string();
+                let src = format!("{all_imports}{}mp <- MAP()\nrb <- ROBOT_MAP(\".\\n.n.\\n.\")\nDISPLAY(\"A\")\nr <- {name}({})\nDISPLAY(\"B\")\n", crate::gen::exemplar_prelude(), a2.join(", "));
+                programs.push((format!("{m}.{name}"), src));
+            }
+        }
     }
     // statement forms, errors, the front end alone
     for (tag, src) in [
